@@ -18,6 +18,29 @@ def fixed_size(f):
     return None
 
 
+def bits_run_of(fam, declname, name):
+    """Names of the bit fields forming one run with `name` (empty when `name` is not a bit field)."""
+    fields = fam["decls"][declname]["fields"]
+    conf = fam["decls"][declname]["opts"]
+    runs, cur = [], []
+    for f in fields:
+        if f["t"] == "bits":
+            if cur and model.effective_move(f, conf) is not None:
+                runs.append(cur)
+                cur = []
+            cur.append(f["name"])
+        else:
+            if cur:
+                runs.append(cur)
+            cur = []
+    if cur:
+        runs.append(cur)
+    for r in runs:
+        if name in r:
+            return r
+    return []
+
+
 def name_matches(fam, declname, want_name, want_off, got_name, got_off):
     """Does the reported (name, offset) designate the failing field `want_name` beginning at
     `want_off`, or a run of adjacent fixed-size fields containing it (offset = start of run)?
@@ -28,6 +51,13 @@ def name_matches(fam, declname, want_name, want_off, got_name, got_off):
         return False, "offset %r is not where field %s begins (%r)" % (got_off, want_name, want_off)
     m = BETWEEN.match(str(got_name))
     if not m:
+        # bit fields of one run share their bytes: the run is read at its first member and written at
+        # its last one, so any member of the run designates the same failing bytes
+        run_members = bits_run_of(fam, declname, want_name)
+        if got_name in run_members:
+            if got_off == want_off:
+                return True, "bits-run"
+            return False, "offset %r is not where the bit-field run of %s begins (%r)" % (got_off, want_name, want_off)
         return False, "names %r, failing field is %r" % (got_name, want_name)
     a, b = m.group(1), m.group(2)
     fields = fam["decls"][declname]["fields"]
@@ -94,7 +124,8 @@ def judge_error(run, fam, variant, err, unpacking, want_path, witness, failnode=
             node = node.parent
         if node is not None:
             t_cls = node.cls.rsplit("_", 1)[0]
-            if (node.name, t_cls, node.enter) != (w_name, w_decl, w_off):
+            same_run = node.name in bits_run_of(fam, w_decl, w_name) if t_cls == w_decl else False
+            if (node.name, t_cls, node.enter) != (w_name, w_decl, w_off) and not (same_run and node.enter == w_off):
                 run.count("harness_disagreement")
                 run.inconclusive_because("model-and-trace-disagree-on-failing-field")
                 run.extra.setdefault("disagreements", []).append(dict(wit, trace=[node.name, node.cls, node.enter]))
